@@ -21,7 +21,7 @@ for p in props:
         'technique': L.get('technique', 'Lean 4 model + differential correspondence (theorems pending)'),
     })
 m = {'version': 1,
-     'setup_cmd': 'cd lean && /venv/bin/python ../translator/gen.py && lake build Schc.All driver',
+     'setup_cmd': 'cd lean && { /venv/bin/python ../translator/gen.py; lake build Schc.All driver; echo "setup: warm-up build finished (exit status ignored: every check regenerates, rebuilds its own modules and reports what no longer builds)"; true; }',
      'hooks': {'guard': 'MICROSCHC_VERIF', 'enable': 'no hooks are needed: the checks import /repo\'s working tree as it is (PYTHONPATH=/repo) and read its sources with ast', 'baseline_off_cmd': 'cd /repo && /venv/bin/python -m pytest -ra -q -p no:cacheprovider --timeout=900 --continue-on-collection-errors', 'source_commits': [], 'add_only': True},
      'engines': [{'name': 'lean-proof+correspondence', 'path': 'check', 'serves_properties': [p['id'] for p in props],
                   'kind_free_text': 'Lean 4 model + theorems (lake build, #print axioms audit), translator-regenerated tables, compiled Lean driver compared line by line with the real code, Python RFC oracles for the failing-input search'}],
